@@ -29,3 +29,22 @@ PROPS["C08"] = {
          "checks": {"quick": 6, "thorough": 60}, "shards": {"quick": 4, "thorough": 16}},
     ],
 }
+
+PROPS["C06"] = {
+    "level": "exploration",
+    "rule": ("Config messages built by construction (axis lists as drawn sub-multisets incl. empty/duplicates/CODEC_TEXT, seven tri-state flags, 0-3 include and "
+             "0-3 exclude entries with every field independently omitted) serialised to YAML and passed to parseConfig; oracle = set comprehension written from "
+             "the docs (defaults, validity predicate, features U includes \\ excludes) + model-free validity of every returned case + metamorphic relations "
+             "(list order/duplicates irrelevant, an added exclude never adds a case). Enum walks version x protocol x stream-type subsets x all 3^7 flag assignments. "
+             "Non-trivial: non-error result with an include/exclude entry that omits a field, or with >=2 explicitly set flags; distinct by canonical JSON."),
+    "assumptions": ["an include/exclude entry that is individually unsatisfiable may be rejected or ignored (docs are silent)",
+                    "with versions unset and neither TLS nor H2C supported the default is HTTP/1.1 only"],
+    "units": [
+        {"name": "C06Random", "pkg": CC, "test": "TestVerifC06Random", "kind": "rapid",
+         "checks": {"quick": 25000, "thorough": 300000}, "shards": {"quick": 4, "thorough": 16}},
+        {"name": "C06Meta", "pkg": CC, "test": "TestVerifC06Meta", "kind": "rapid",
+         "checks": {"quick": 8000, "thorough": 100000}, "shards": {"quick": 2, "thorough": 8}},
+        {"name": "C06Enum", "pkg": CC, "test": "TestVerifC06Enum", "kind": "enum",
+         "shards": {"quick": 8, "thorough": 16}, "env_tier": {"quick": {"VERIF_C06_STRIDE": 40}, "thorough": {"VERIF_C06_STRIDE": 1}}},
+    ],
+}
